@@ -39,6 +39,8 @@ func c01Cases(rng *zz.RNG, thorough bool) []c01Case {
 		{"varint-boundaries", genOpts{Epoch: 5, NBlocks: 14, MaxTx: 2, SkipPct: 10,
 			ExactSecLens: []int{126, 127, 128, 129, 130, 16382, 16383, 16384, 16385, 16511, 16512, 255, 256}}},
 		{"many-tx", genOpts{Epoch: 6, NBlocks: 1300, MaxTx: 14, SkipPct: 5}},
+		{"edge-signature-prefixes", genOpts{Epoch: 4, NBlocks: 6, MaxTx: 3, SkipPct: 20, Twins: -1,
+			SigPrefixes: [][2]byte{{0xff, 0xff}, {0x00, 0x00}, {0xff, 0x00}, {0x00, 0xff}}}},
 		{"mid-epoch", genOpts{Epoch: 123, NBlocks: 40, MaxTx: 5, SkipPct: 60, FirstSlotAt: 100000, FramePct: 10}},
 	}
 	n := 2
